@@ -665,6 +665,92 @@ def part_direct(params, tier, acc):
                           dict(part="direct", app=17),
                           "count_cores_in_state([..], 17) sent app ids %r"
                           % [r["arg2"] & 0xff for r in sent(n0)])
+    # ---- the controller's initial context (constructor argument): it IS
+    # the outermost context - nothing is added to it, nothing taken away
+    with Twin() as tw:
+        from rig.machine_control import machine_controller as mcm
+        sim = tw.sims["A"]
+        for ic in (None, {}, {"x": 1, "y": 2}, {"app_id": 30},
+                   {"x": 2, "y": 0, "p": 3, "app_id": 31}, {"p": 5}):
+            kw = {} if ic is None else dict(initial_context=dict(ic))
+            eff = {"app_id": 66} if ic is None else dict(ic)
+            mc = mcm.MachineController("hostA", structs=Twin._structs, **kw)
+            case = dict(part="direct", initial_context=ic)
+            acc.evaluations += 1
+            acc.nontrivial += 1
+            if mc.get_context_arguments() != eff:
+                acc.violation(dict(kind="initial_context"), case,
+                              "a controller made with initial_context=%r "
+                              "has context arguments %r"
+                              % (ic, mc.get_context_arguments()))
+                continue
+            if ic is not None and kw["initial_context"] != ic:
+                acc.violation(dict(kind="initial_context"), case,
+                              "the caller's initial_context dict was changed")
+            calls = [
+                ("send_signal", lambda: mc.send_signal("stop"), ("app_id",),
+                 lambda r: (r["arg2"] & 0xff)),
+                ("sdram_alloc", lambda: mc.sdram_alloc(16),
+                 ("x", "y", "app_id"), lambda r: (r["arg1"] >> 8) & 0xff),
+                ("count_cores_in_state",
+                 lambda: mc.count_cores_in_state("run"), ("app_id",),
+                 lambda r: (r["arg2"] & 0xff)),
+                ("get_chip_info", lambda: mc.get_chip_info(), ("x", "y"),
+                 None),
+                ("read", lambda: mc.read(0x60000000, 4), ("x", "y"), None)]
+            for name, fn, required, app_of in calls:
+                n0 = len(sim.cmds)
+                acc.evaluations += 1
+                missing = [a for a in required if a not in eff]
+                try:
+                    fn()
+                    exc = None
+                except TypeError as e:
+                    exc = e
+                except Exception as e:
+                    acc.violation(dict(kind="exception", method=name,
+                                       exc=type(e).__name__), case,
+                                  "%s raised %s: %s" % (name,
+                                                        type(e).__name__, e))
+                    continue
+                sent_ = [r for r in sim.cmds[n0:] if r["cmd"] != 0]
+                if missing:
+                    if exc is None or sent_:
+                        acc.violation(
+                            dict(kind="missing_argument_accepted",
+                                 method=name), case,
+                            "%s on a controller whose initial context is %r "
+                            "lacks %r but %s" % (
+                                name, ic, missing,
+                                "was sent: %r" % [(r["raw_chip"], r["cpu"],
+                                                   r["cmd"], hex(r["arg1"]),
+                                                   hex(r["arg2"]))
+                                                  for r in sent_]
+                                if sent_ else "raised nothing"))
+                    continue
+                if exc is not None:
+                    acc.violation(dict(kind="spurious_rejection",
+                                       method=name), case,
+                                  "%s rejected (%s) although the initial "
+                                  "context %r supplies %r" % (name, exc, ic,
+                                                              required))
+                    continue
+                for r in sent_:
+                    if "x" in required and r["raw_chip"] != (eff["x"],
+                                                             eff["y"]):
+                        acc.violation(dict(kind="destination", method=name),
+                                      case, "%s went to chip %r, initial "
+                                      "context %r" % (name, r["raw_chip"],
+                                                      ic))
+                    if name == "read" and r["cpu"] != eff.get("p", 0):
+                        acc.violation(dict(kind="destination", method=name),
+                                      case, "read went to core %d, initial "
+                                      "context %r" % (r["cpu"], ic))
+                    if app_of is not None and app_of(r) != eff["app_id"]:
+                        acc.violation(dict(kind="app_id_field", method=name),
+                                      case, "%s carried application id %d, "
+                                      "initial context %r"
+                                      % (name, app_of(r), ic))
     # leaving a block restores the previous arguments even when a closing
     # callback fails (the machine stops answering: the stop signal sent on
     # leaving application() times out)
@@ -979,6 +1065,46 @@ def part_bmp(params, tier, acc):
                                 "after leaving both blocks (%s) context is "
                                 "%r" % (how, got))
                             bc = bm.BMPController(hosts)
+        # ---- several boards named at once (documented: the LED command
+        # goes to the FIRST board listed, the power command to board 0 of the
+        # frame; the bit mask names exactly the boards given)
+        bc = bm.BMPController(hosts)
+        for boards in ([3, 0], [0, 3], [5, 3, 1], (2,), [7, 4], [3]):
+            for via in ("explicit", "context"):
+                for name in ("set_led", "set_power"):
+                    acc.evaluations += 1
+                    acc.nontrivial += 1
+                    n0 = len(resp.cmds)
+                    args = (1, True) if name == "set_led" else (False,)
+                    try:
+                        if via == "explicit":
+                            getattr(bc, name)(*args, board=list(boards))
+                        else:
+                            with bc(board=list(boards)):
+                                getattr(bc, name)(*args)
+                    except Exception as e:
+                        acc.violation(
+                            dict(kind="exception", exc=type(e).__name__,
+                                 method=name),
+                            dict(part="bmp", boards=list(boards), via=via),
+                            "%s(board=%r) raised %s: %s"
+                            % (name, boards, type(e).__name__, e))
+                        continue
+                    first = boards[0] if name == "set_led" else 0
+                    want_host = hosts.get((0, 0, first), hosts[(0, 0)])
+                    mask = sum(1 << b for b in set(boards))
+                    sent = resp.cmds[n0:]
+                    if len(sent) != 1 or sent[0]["host"] != want_host or \
+                            sent[0]["cpu"] != first or \
+                            sent[0]["arg2"] != mask:
+                        acc.violation(
+                            dict(kind="bmp_board_list", method=name),
+                            dict(part="bmp", boards=list(boards), via=via),
+                            "%s for boards %r (%s) sent %r; expected one "
+                            "command to host %r board %d with board mask %#x"
+                            % (name, boards, via,
+                               [(c["host"], c["cpu"], hex(c["arg2"]))
+                                for c in sent], want_host, first, mask))
     acc.sample(dict(part="bmp", frames=frames))
 
 
